@@ -36,6 +36,13 @@ class Obj(object):
         return '<Obj %s>' % self.__dict__['_name']
 
 
+class Native(object):
+    """A checker-side function bound to a name of the analysed code (model of a constructor, isinstance, ...)."""
+
+    def __init__(self, fn):
+        self.fn = fn
+
+
 class _Return(Exception):
     def __init__(self, v):
         self.v = v
@@ -296,6 +303,10 @@ class Evaluator(object):
                     l2[lam.args.args[0].arg] = item
                     out.append(self.ev(lam.body, l2))
                 return out
+            for k_, v_ in list(kw.items()):
+                if isinstance(v_, Opaque) and isinstance(v_.node, ast.Lambda):
+                    lam_, loc_ = v_.node, dict(loc)
+                    kw[k_] = (lambda *a, _l=lam_, _c=loc_: self.ev(_l.body, dict(_c, **dict(zip([p.arg for p in _l.args.args], a)))))
             if fn is None or any(isinstance(a, Opaque) for a in args):
                 raise NotConst('call %s' % f.id)
             try:
@@ -305,6 +316,12 @@ class Evaluator(object):
             if f.id in ('zip', 'enumerate', 'range'):
                 r = list(r)
             return r
+        if isinstance(f, ast.Name):
+            tgt = loc.get(f.id, self.env.get(f.id)) if loc is not None else self.env.get(f.id)
+            if isinstance(tgt, Native):
+                return tgt.fn(*args, **kw)
+            if isinstance(tgt, ast.FunctionDef):
+                return self.call_user(tgt, args, kw)
         if isinstance(f, ast.Attribute):
             recv = self.ev(f.value, loc)
             if isinstance(recv, Obj) and f.attr in recv.__dict__.get('_methods', {}):
